@@ -7,20 +7,153 @@ VERIF = os.path.dirname(os.path.dirname(os.path.abspath(__file__)))
 BASELINE = ("cd /repo && /venv/bin/python -m pytest -ra -q -p no:cacheprovider --timeout=900 "
             "--continue-on-collection-errors")
 
+T = "contract-based deductive verification: "
+TRUST = ("pyvc's encoding of Python semantics and the numpy/scipy models of pyvc/lib.py, pyvc/libreal.py are trusted "
+         "(conformance-tested); A-NAN (no NaN/inf values); user callables deterministic; z3/cvc5/sympy as decision "
+         "procedures. ")
+
+
+def E(category, text, ref, note, technique):
+    return dict(category=category, text=text, design_ref=ref, note=TRUST + note, technique=technique)
+
+
 CHECKS = {
-    "C15": dict(
-        category="proof",
-        text="Class invariant of the real ScalarFunction (cache flags imply cached values are F/grad at the cached "
-             "point, counters equal user calls, cache point owned) established by prepare_scalar_function/__init__ and "
-             "preserved by fun/grad/fun_and_grad from a generic state, plus method postconditions taken from the "
-             "property text; every obligation generated from /repo's source by pyvc and discharged by z3. Covers "
-             "histories of any length, any points, scaling changes, all five gradient modes - which no finite test "
-             "can.",
-        design_ref="DESIGN.md §9 C15",
-        note="UF domain: float arithmetic uninterpreted, comparisons as reals; A-NAN; assumed contract of scipy "
-             "approx_derivative; pyvc's encoding of Python semantics and the numpy models in pyvc/lib.py are trusted. "
-             "A bounded native history enumeration runs alongside as replay oracle (labelled bounded).",
-        technique="contract-based deductive verification: class invariant + method contracts, VCs from the AST, z3"),
+    "C01": E("exploration",
+             "NOT a proof: global convergence of a floating-point iteration is outside what per-function contracts can "
+             "decide (DESIGN 9/C01). Bounded run-time contract: the property's postcondition (recomputed projected "
+             "gradient at the tolerance / objective-resolution level) evaluated on generated strictly convex box problems "
+             "of the property's families; thorough tier also reports proved necessary conditions (Cauchy/subspace "
+             "obligations) as supporting evidence.",
+             "DESIGN.md 9 C01", "bounded stand-in only; tolerance stated in the evidence.",
+             "bounded run-time contract checking (stand-in; deductive family not applicable to the convergence claim)"),
+    "C02": E("proof",
+             "Every site at which a point reaches the user's objective/gradient, the callback or the result carries the "
+             "obligation lb <= point <= ub; discharged for all inputs and iterations from np.clip's axioms (clip2bounds at "
+             "the start, clip(x0 + a*d) for every trial point and for the new iterate), the loop invariant and callee "
+             "contracts; site completeness because user functions are only reachable through ScalarFunction.",
+             "DESIGN.md 9 C02", "approx_derivative keeps its stencil inside the bounds (assumed contract); Cauchy/subspace "
+             "points inside the box proved at fixed shapes only.",
+             T + "call-site obligations + loop invariant, UF domain, z3"),
+    "C03": E("proof",
+             "Contract of the real line_search (None or strictly lower objective at the evaluated trial point) proved with "
+             "a loop invariant for every maxls/evaluation budget and every DCSRCH behaviour; main's invariant and exit "
+             "clauses (fun <= previous accepted value <= start value at callback sites and returns) proved from it.",
+             "DESIGN.md 9 C03", "DCSRCH._iterate assumed contract; premise update_fun_def is None.",
+             T + "function contract + loop invariants, UF domain, z3"),
+    "C04": E("proof",
+             "Postconditions of minimize_lbfgsb taken from the statement (documented message, each message implies its "
+             "fact, success False iff abnormal, nit/nfev budgets, stop-criterion callables invoked once) proved at every "
+             "return from a loop invariant, for all iteration counts and all 288 combinations of checkpoint / ftarget "
+             "kind / gtol kind / gradient mode / scaler / update function / callback.",
+             "DESIGN.md 9 C04", "callee contracts (line_search budget proved in unit LS); known finding KF1 (FD mode + "
+             "degenerate bound -> NaN gradient) is outside A-NAN and reported by the bounded stand-in.",
+             T + "ensures + loop invariant on the real main loop, UF domain, z3"),
+    "C05": E("proof",
+             "Bit-for-bit coherence (equality of terms in the UF domain) of (x, fun, jac) and counter/ghost-call equality "
+             "as loop invariant, at every callback site and return, including restarts (checkpoint counters + calls "
+             "since); ScalarFunction's counting invariant (unit SF).",
+             "DESIGN.md 9 C05", "restart premise: well-formed checkpoint, no scaler on restart.",
+             T + "loop invariant + class invariant, UF provenance, z3"),
+    "C06": E("other",
+             "Restore contract of initialize_X_and_G proved in real arithmetic at fixed shapes (component-wise: n=1 "
+             "complete in n; pairs 1..4 x maxcor 1..4): most recent points, chronological order, checkpoint untouched; "
+             "restart provenance (counters, f0, grad, zero-iteration restart returns the checkpoint's pairs) proved in "
+             "the UF domain; matrices rebuilt from the deques (unit BFGS). 'Same continuation' = determinism lemma (hand) "
+             "+ bounded native comparison.",
+             "DESIGN.md 9 C06", "A-REAL for the restore contract; lemma C06::same_continuation by hand.",
+             T + "fixed-shape real-arithmetic VCs (z3) + UF provenance; bounded stand-in for the end-to-end clause"),
+    "C07": E("proof",
+             "Call-site clauses at the callback (every state field equals the current value, nit counts completed "
+             "iterations, x/xk are copies, pairs are diff of the current deques) and ownership/frame obligations (nothing "
+             "handed to the callback is written later) proved for every iteration by the invariant cut.",
+             "DESIGN.md 9 C07", "continuation-after-restart clause relies on C06.",
+             T + "call-site contracts + ownership/frame obligations, z3"),
+    "C08": E("other",
+             "Postconditions of the real get_cauchy_point (breakpoints, ordered positive breakpoint list, feasibility, "
+             "exact pinning, first local minimiser on the projected path, model decrease, auxiliary vector, arguments "
+             "untouched) discharged by z3 NRA for ALL real inputs and every bound/sign pattern at n <= 2 (quick) / 3 "
+             "(thorough) with empty memory: proved-at-shape, bounded in shape. With stored pairs: bounded native stand-in.",
+             "DESIGN.md 9 C08", "A-REAL; A-SAFEGUARD; shapes stated in the evidence; memory m>=1 bounded only.",
+             T + "fixed-shape symbolic execution of the real kernel, unrolled loops with unwinding obligations, z3 NRA"),
+    "C09": E("other",
+             "Postconditions of the real get_freev + subspace_minimization (free set, active variables fixed, box-truncated "
+             "exact Newton step, model non-increase, descent) discharged by z3 NRA for all real inputs and every "
+             "free/active partition at n <= 2 (quick) / 3 (thorough) with empty memory: proved-at-shape. With stored "
+             "pairs: bounded native stand-in against a dense solve.",
+             "DESIGN.md 9 C09", "A-REAL; sparse selection matrices modelled dense; memory m>=1 bounded only.",
+             T + "fixed-shape symbolic execution of the real kernel, z3 NRA"),
+    "C10": E("other",
+             "Structural half proved for all histories and memory sizes (update_X_and_G / update_lbfgs_matrices contracts, "
+             "quantified deque invariant in main's loop); numeric half proved-at-shape: the real update_lbfgs_matrices / "
+             "form_invMfactors / bmv at (n, pairs, maxcor) of the grid for all real inputs; Byrd-Nocedal-Schnabel Thm 2.3 "
+             "checked in the fraction field at small shapes and cited beyond.",
+             "DESIGN.md 9 C10", "A-REAL in the numeric half; cited lemma beyond the grid; cholesky/solve_triangular models.",
+             T + "UF contracts with quantified invariants (z3) + fixed-shape real VCs (z3 NRA) + fraction-field identities (sympy)"),
+    "C11": E("proof",
+             "Contract of the real line_search: evaluation points are clip(x0 + a*d) hence inside the box, at most max_iter "
+             "objective evaluations, result None or 0 < step <= max feasible step with strictly lower objective; proved "
+             "with a loop invariant for every DCSRCH behaviour and budget; max_allowed_steplength feasible and maximal "
+             "(real arithmetic, fixed shapes).",
+             "DESIGN.md 9 C11", "DCSRCH._iterate assumed contract; step-length kernel proved at shape (component-wise).",
+             T + "function contract + loop invariant, UF domain (z3); kernel at fixed shape (z3 NRA)"),
+    "C12": E("other",
+             "Proved: the reference constants on the signature and their unmodified flow into DCSRCH and the curvature "
+             "test, the first-step rule, theta = y.y/s.y. Bounded: evaluation-point sequences against SciPy's compiled "
+             "L-BFGS-B (agreement with a Fortran binary is not an obligation a solver can discharge).",
+             "DESIGN.md 9 C12", "trajectory clause bounded only.",
+             T + "dataflow/constant obligations (z3/structural) + bounded native comparison with SciPy"),
+    "C13": E("other",
+             "Proved: filter contract of make_X_and_G_respect_strong_wolfe (loop invariant, symbolic memory size); in main "
+             "with an arbitrary update function the rewritten history is filtered before use/return (deque invariant and "
+             "hess_inv clauses hold for the rewritten G at every exit and callback site). Bounded: identity-update and "
+             "restart-equivalence clauses (native).",
+             "DESIGN.md 9 C13", "update_fun_def returns a deque of equal length; identity/restart clauses bounded.",
+             T + "function contract with for-loop invariant + main loop invariant, UF domain, z3"),
+    "C14": E("proof",
+             "Frame: every in-place write on every path of minimize_lbfgsb (and of the kernels in their units) targets "
+             "memory allocated by the call - obligations of the heap/ownership model; flow analysis over the whole "
+             "package: no mutable global state, mutable defaults untouched (dead minpack2 branch), no nondeterminism "
+             "source, iprint/logger never flow into a non-logging sink.",
+             "DESIGN.md 9 C14", "interleavings are not enumerated (ownership argument); numpy/BLAS thread-safety assumed.",
+             T + "ownership/frame obligations of the symbolic heap + syntactic information-flow analysis"),
+    "C15": E("proof",
+             "Class invariant of the real ScalarFunction (cache flags imply cached values are F/grad at the cached point, "
+             "counters equal user calls, cache point owned) established by prepare_scalar_function/__init__ and preserved "
+             "by fun/grad/fun_and_grad from a generic state, plus method postconditions from the property text; covers "
+             "histories of any length, any points, scaling changes, all five gradient modes.",
+             "DESIGN.md 9 C15", "assumed contract of scipy approx_derivative; a bounded native history enumeration runs "
+             "alongside as replay oracle.",
+             T + "class invariant + method contracts, VCs from the AST, z3"),
+    "C16": E("other",
+             "Proved: the precondition of approx_derivative (feasible base point, else ValueError) holds at its only call "
+             "site on every path (requires of ScalarFunction.grad/fun_and_grad at each call site, from np.clip's axioms); "
+             "mode dispatch and stencil counting (unit SF). Bounded: accuracy against exact-gradient solutions.",
+             "DESIGN.md 9 C16", "assumed contract of approx_derivative; known finding KF1 (degenerate side -> NaN).",
+             T + "call-site preconditions (z3) + class invariant; bounded stand-in for the accuracy clause"),
+    "C17": E("proof",
+             "Obligations on the real code: scaler invoked exactly once with (start point, unscaled gradient, bounds); "
+             "scaling factor fixed afterwards; every consumed value is F(p)*s / grad(p)*s; target tested on fun/s. The "
+             "equivalence with the run on (s*f, s*grad f) then follows from commutativity of IEEE multiplication and "
+             "determinism (hand lemma, checked natively).",
+             "DESIGN.md 9 C17", "lemma C17::equivalence by hand; premise: no checkpoint with scaler, s > 0.",
+             T + "ensures + invariant conjuncts, UF provenance, z3"),
+    "C18": E("proof",
+             "At every construction site of LbfgsInvHessProduct: sk/yk are diff of the current deques, rows <= maxcor, "
+             "every pair has s.y > 0 (quantified deque invariant + IEEE sign axioms); every stored gradient is the scaled "
+             "gradient at the stored point; history arrays never written in place. extract_hess_inv_diag: bounded.",
+             "DESIGN.md 9 C18", "restored elements rely on C06; chronological order only structurally; two-loop SPD lemma.",
+             T + "construction-site contracts + quantified deque invariant, z3"),
+    "C19": E("proof",
+             "Closed forms of f and f_grad obtained by executing the real bodies on sympy symbols; diff(f, x_i) - grad_i == 0 "
+             "for every i and n = 1..12, shape and scalar-ness; all real points away from the singular sets.",
+             "DESIGN.md 9 C19", "floats as reals; sympy's rewriting trusted when it answers 0.",
+             T + "CAS identity per component from code-derived closed forms (sympy)"),
+    "C20": E("proof",
+             "Every user-callable call site has an exceptional outcome with a symbolic exception class; on every path a "
+             "normal return never follows a user exception and an exceptional exit delivers that same exception object; "
+             "all call indices covered by the invariant cut; no handler encloses a user call (flow unit).",
+             "DESIGN.md 9 C20", "library frames (approx_derivative, DCSRCH) transparent to exceptions.",
+             T + "exceptional-path symbolic execution with symbolic exception classes, structural obligations"),
 }
 
 NOT_YET = {}
@@ -34,6 +167,7 @@ def main():
         if pid not in CHECKS:
             continue
         c = CHECKS[pid]
+        c = dict(c, note=c["note"])
         checks.append({
             "property_id": pid,
             "quick_cmd": f"python3-vt checks/run.py {pid} --tier quick",
